@@ -37,6 +37,6 @@ def one(name):
         shutil.rmtree(scratch, ignore_errors=True)
 
 
-with ThreadPoolExecutor(2) as ex:
+with ThreadPoolExecutor(int(os.environ.get("VF_RECHECK_PAR", "2"))) as ex:
     for name, st, res in ex.map(one, names):
         print(f"{name:36s} {st:16s} " + ' '.join(f"{p}:{'DETECTED' if v['detected'] else 'missed(exit %d)' % v['exit']}" for p, v in res.items()))
